@@ -19,7 +19,8 @@ class C18(BaseCheck):
              'scales.varz:VarzAggregator.CalculatePercentile')
   REQUIRED_ANCHORS = ANCHORS
   REQUIRED_CLASSES = ('counter', 'gauge', 'percentile:below-reservoir', 'percentile:above-reservoir',
-                      'full-stack', 'percentile:busy-after-full', 'zero-increment', 'fractional-increment')
+                      'full-stack', 'percentile:busy-after-full', 'zero-increment', 'fractional-increment',
+                      'overlapping-measure')
   ASSUMPTIONS = ('percentile bounds allow 1e-9 relative slack for the linear interpolation',)
   QUICK_CASES = 720
   THOROUGH_CASES = 40000
@@ -33,7 +34,7 @@ class C18(BaseCheck):
     class V(VarzBase):
       _VARZ_BASE_NAME = 'verif.c18'
       _VARZ = {'cnt': Counter, 'rate': Rate, 'agg': AggregateTimer, 'g': Gauge, 'lat': AverageTimer,
-               'sz': AverageRate}
+               'sz': AverageRate, 'agg2': AggregateTimer}
     self.V = V
     from vlib import simnet
     self.net = simnet.Network(env)
@@ -100,7 +101,42 @@ class C18(BaseCheck):
         used.setdefault('g', set()).add(t)
         kinds_used.add('gauge')
     classes |= kinds_used
+    # ---------------- timed blocks (Measure) that overlap in time on one timer object, in its
+    # bound form (one Varz instance shared by several greenlets) and its class-level form
+    want_timed = {}
+    if env is not None and rng.random() < 0.4:
+      import gevent
+      classes.add('overlapping-measure')
+      t0 = rng.choice(tuples)
+      shared = V(Source(method=t0[0], service=t0[1], endpoint=t0[2], client_id=t0[3]))
+      blocks = []
+      for _ in range(rng.randint(2, 5)):
+        form = rng.choice(['bound', 'class'])
+        t = t0 if form == 'bound' else rng.choice(tuples)
+        d = rng.choice([0.25, 0.5, 1.0, 2.0, 4.0])
+        blocks.append((form, t, d, rng.choice([0.0, 0.0, 0.125, 0.5, 1.5])))
+        want_timed[(t[1], t[3])] = want_timed.get((t[1], t[3]), 0.0) + d
+
+      def block(form, t, d, delay):
+        gevent.sleep(delay)
+        if form == 'bound':
+          cm = shared.agg2.Measure()
+        else:
+          cm = V.agg2.Measure(Source(method=t[0], service=t[1], endpoint=t[2], client_id=t[3]))
+        with cm:
+          gevent.sleep(d)
+      gs = [gevent.spawn(block, *b) for b in blocks]
+      env.advance(7.0)
+      out.obligations += 1
+      if not all(g.ready() for g in gs):
+        out.violate('measure:block-stuck', 'a timed block did not finish', {})
     agg = VarzAggregator.Aggregate(VarzReceiver.VARZ_DATA, VarzReceiver.VARZ_METRICS)
+    for key, want in want_timed.items():
+      out.obligations += 1
+      got = agg.get('verif.c18.agg2', {}).get(key)
+      if got is None or abs(got.total - want) > 1e-4:
+        out.violate('aggregate:timed-blocks', 'overlapping Measure() blocks for %r lasted %.3f s in total, the aggregate '
+                    'timer reports %r' % (key, want, got and got.total), {'metric_kind': 'agg2'})
     equal_distinct = any(v >= 2 for v in fresh_uses.values())
     for short in ('cnt', 'rate', 'agg', 'g'):
       metric = 'verif.c18.' + short
